@@ -900,17 +900,17 @@ Proof.
   simpl in H. destruct (rev l); discriminate.
 Qed.
 
-Lemma numpy_plain_text_modulo_known :
+Lemma numpy_plain_text :
   forall lines o p,
     (forall l, In l lines -> dash l = false) ->
-    cleandoc_post lines = true -> lines_wf lines = true -> KnownGap_F1 lines = false ->
+    cleandoc_post lines = true -> lines_wf lines = true ->
     exists ls fc,
       n_parse lines o p = Ok (if List.length lines <=? g_start o p then [] else [SText ls fc false]) /\
       (g_start o p < List.length lines ->
        map fst ls = seq (g_start o p) (List.length lines - g_start o p) /\
        forall i b, In (i, b) ls -> b = true -> exists l, nth_error lines i = Some l /\ blank l = true).
 Proof.
-  intros lines o p Hp P W K. set (start := g_start o p).
+  intros lines o p Hp P W. set (start := g_start o p).
   destruct (numpy_total lines o p P) as [secs G]. rewrite G.
   unfold n_parse in G. fold start in G.
   destruct (iter (n_step lines) (S (List.length lines)) (mkNst start false [] None [])) as [st|e] eqn:I; [|discriminate].
@@ -919,7 +919,7 @@ Proof.
   - destruct I as (s0 & Inv & D). apply n_step_done in D. destruct D as [-> D].
     apply nth_error_None in D. unfold n_finish.
     destruct Inv as [(R1 & R2 & R3 & R4 & R5 & R6)|(F1 & F2 & F3 & F4 & ls & fc & F5 & F6)].
-    + rewrite R1, R2. unfold n_append.
+    + rewrite R1, R2.
       destruct (List.length lines <=? start) eqn:L.
       * apply Nat.leb_le in L. assert (E : n_off s0 = start) by lia.
         rewrite E, Nat.sub_diag in R5. apply map_rev_nil in R5. rewrite R5.
@@ -929,25 +929,7 @@ Proof.
         destruct (n_cur s0) as [|e c] eqn:C.
         { exfalso. simpl in R5. replace (List.length lines - start) with (S (List.length lines - start - 1)) in R5 by lia.
           simpl in R5. discriminate. }
-        (* the newest entry is the last line, which is not blank *)
-        assert (TI : t_idx e = List.length lines - 1).
-        { cbn [rev] in R5. rewrite map_app in R5.
-          replace (List.length lines - start) with (S (List.length lines - start - 1)) in R5 by lia.
-          rewrite seq_S in R5. apply app_inj_tail in R5. destruct R5 as [_ R5]. rewrite R5. lia. }
-        assert (NB : t_null e = false).
-        { inversion R6 as [|? ? [E1 E2] ?]; subst.
-          destruct (cleandoc_post_cases lines P) as [(l & -> & B)|(pre & l & -> & B)].
-          - unfold KnownGap_F1 in K. simpl in K. rewrite B in K. discriminate.
-          - rewrite TI in E1. rewrite app_length in E1. simpl in E1.
-            replace (List.length pre + 1 - 1) with (List.length pre) in E1 by lia.
-            rewrite nth_error_app2 in E1 by lia. rewrite Nat.sub_diag in E1. simpl in E1.
-            inversion E1 as [E3].
-            unfold t_null. destruct (t_blanked e) eqn:TB.
-            + specialize (E2 eq_refl). rewrite <- E3, B in E2. discriminate.
-            + simpl. unfold lines_wf in W. rewrite forallb_forall in W.
-              specialize (W l ltac:(apply in_or_app; right; left; reflexivity)).
-              unfold lf_wf in W. rewrite <- E3. rewrite B in W. destruct (null l); [discriminate|reflexivity]. }
-        unfold any_nonnull. cbn [existsb]. rewrite NB. simpl.
+        unfold mk_text. cbn [rev app].
         eexists. eexists. split; [reflexivity|]. intros _.
         apply text_of_ok; [exact R5|exact R6].
     + rewrite F3, F4, F5. simpl.
@@ -957,16 +939,10 @@ Proof.
   - left. unfold n_running. simpl. rewrite Nat.sub_diag. simpl. repeat split; try lia; auto.
 Qed.
 
-(* C12-F1: the full plain-text statement is false of the Numpy parser for the empty docstring *)
-Lemma numpy_plain_text_refuted_F1 :
-  exists lines o p,
-    (forall l, In l lines -> dash l = false) /\ cleandoc_post lines = true /\ lines_wf lines = true /\
-    KnownGap_F1 lines = true /\ g_start o p < List.length lines /\ n_parse lines o p = Ok [].
-Proof.
-  exists [lf_plain true], gopts_default, no_parent.
-  split; [intros l [<-|[]]; reflexivity|].
-  split; [reflexivity|]. split; [reflexivity|]. split; [reflexivity|]. split; [cbv; lia|reflexivity].
-Qed.
+(* the empty docstring: one empty text section (C12-F1 repaired) *)
+Example numpy_empty_docstring :
+  n_parse [lf_plain true] gopts_default no_parent = Ok [SText [(0, true)] false false].
+Proof. vm_compute. reflexivity. Qed.
 
 (* ================= well-formed sections ================= *)
 Definition cur_ok (n : nat) (cur : list tentry) : bool := forallb (fun e => t_idx e <? n) cur.
@@ -1178,7 +1154,10 @@ Proof.
   inversion G; subst secs. clear G.
   apply (iter_invariant nst (n_step lines) (n_wf_inv (List.length lines))) in I.
   - destruct I as (s0 & (C & S & A) & D). apply n_step_done in D. destruct D as [-> D].
-    unfold n_finish. apply wf_sections_rev. apply n_append_wf; assumption.
+    unfold n_finish. apply wf_sections_rev.
+    destruct (n_adm s0) as [h|] eqn:EA; [apply n_append_wf; [assumption|assumption|exact A]|].
+    destruct (n_cur s0) as [|e c] eqn:EC; [exact S|].
+    unfold wf_sections. cbn [forallb]. rewrite mk_text_wf by exact C. exact S.
   - intros s s' Hs E. exact (n_wf_step lines s s' Hs E).
   - split; [reflexivity|]. split; [reflexivity|simpl; trivial].
 Qed.
